@@ -74,8 +74,10 @@ Init ==
 JudgeAll(rs) ==
     LET broken == { x \in rs : x[3] /\ ~x[4] }
         c == { x[2] : x \in { y \in rs : y[3] } }
-    IN  /\ viol' = IF Cardinality(viol) >= 40 THEN viol
-                   ELSE viol \cup { <<l, x[2], x[1], x[5]>> : x \in broken }
+        \* (bounded per signature = rule + context, not in total: a finding that repeats on every packet must not
+        \*  crowd out a different one later in the trace)
+        fresh == { x \in broken : Cardinality({ v \in viol : v[2] = x[2] /\ v[4] = x[5] }) < 4 }
+    IN  /\ viol' = IF broken = {} THEN viol ELSE viol \cup { <<l, x[2], x[1], x[5]>> : x \in fresh }
         /\ cov' = IF c = {} THEN cov ELSE [r \in RuleNames |-> cov[r] + IF r \in c THEN 1 ELSE 0]
 JudgeCtx(k, rs, ctx) == JudgeAll({ <<k, x[1], x[2], x[3], ctx>> : x \in rs })
 Judge(k, rs) == JudgeCtx(k, rs, "")
@@ -153,7 +155,9 @@ TickRules(k, t) ==
           <<k, "C08.EndsInTime", ~e.ended /\ e.released >= 0,
                                  \* (bounded: the configured inactivity timeout, the final-chance delay after the FIN, and the
                                  \*  task wrapper's 5 s tick, which is what notices a dropped reader)
-                                 t <= Max(e.released, e.lastRxAt) + e.cfg.inactivity + 1000000 + 5000000 + Eps, "">>,
+                                 \* ("under any network behaviour": only packets that bring something - there can only be
+                                 \*  finitely many once nobody reads - move the deadline, not any packet)
+                                 t <= Max(e.released, e.lastGainAt) + e.cfg.inactivity + 1000000 + 5000000 + Eps, "">>,
           <<k, "C03.AbortSurfaces", e.ended /\ e.pend # {}, FALSE, "">>,
           <<k, "C19.WriteNotStuck", "write" \in e.pend /\ alive, R_C19_WriteNotStuck(e), "">>,
           \* (known finding D4: the sender believes the window is zero although the receiver has since advertised
@@ -386,6 +390,8 @@ Recv(r) ==
                 drain == /\ SentUnacked(e) /\ ~SentUnacked(e1) /\ e1.nextOff < e1.wr /\ e1.pwnd >= e1.cfg.link_mtu
                          /\ r.state = "established" /\ e1.peerFin < 0 /\ ~e1.txPending
                 e2 == [e1 EXCEPT !.state = r.state, !.stim = TRUE, !.rxCount = @ + 1, !.lastRxAt = now,
+                                 !.lastGainAt = IF e1.acked # e.acked \/ r.state # e.state \/ e1.fin # e.fin \/ e.rxCount = 0
+                                                   \/ DOMAIN e1.segs # DOMAIN e.segs THEN now ELSE @,
                                  !.peerLied = @ \/ (r.t \in {ST_DATA, ST_STATE, ST_FIN} /\ D(r.ack, e.nxt) > 0),
                                  !.lastDataRxAt = IF r.t \in {ST_DATA, ST_FIN} THEN now ELSE @,
                                  !.maxArr = IF r.t = ST_DATA /\ ActsOn(e, r) THEN Max(@, r.plen) ELSE @,
@@ -452,7 +458,8 @@ Disp(r) ==
                     <<"C17.FinAnswered", e1.finAnsDue > 0, TRUE>> }
                 \* C02 "blocked readers/writers are always woken when their condition changes": end-of-stream became
                 \* readable while a read was waiting
-                e2 == [e1 EXCEPT !.eofDue = IF w = "fin_accepted" /\ e.readPend THEN l ELSE @]
+                e2 == [e1 EXCEPT !.eofDue = IF w = "fin_accepted" /\ e.readPend THEN l ELSE @,
+                                 !.lastGainAt = IF w \in {"consumed", "out_of_order", "fin_accepted"} THEN now ELSE @]
                 \* known finding D1b, second shape: the probe was still on its way when the sender cut its bytes again
                 \* under the same number, and is taken in now - with a length the sender no longer has for that number
                 pk == e.cfg.peer
